@@ -28,6 +28,7 @@ def main():
     ap.add_argument('--clean', action='store_true')
     ap.add_argument('--seed', default='1')
     ap.add_argument('--verbose', action='store_true')
+    ap.add_argument('--only', default=None)
     a = ap.parse_args()
     patch = os.path.abspath(a.patch)
     src = '/var/tmp/pysph-mut-src-%s' % a.slot
@@ -57,7 +58,9 @@ def main():
     for pid in a.ids:
         t0 = time.time()
         r = subprocess.run([os.path.join(VERIF, 'check'), pid, '--tier',
-                            a.tier, '--no-evidence'], env=env, cwd=VERIF,
+                            a.tier, '--no-evidence'] +
+                           (['--only', a.only] if a.only else []),
+                           env=env, cwd=VERIF,
                            capture_output=True, text=True)
         out = r.stdout + r.stderr
         viol = [l for l in r.stdout.splitlines() if l.startswith('VIOLATION')]
